@@ -14,14 +14,15 @@ from eglib.model import ANY, ERROR, NONNEIGHBOR, ref_neighbors, ref_reach
 
 
 def cases(max_v=8, max_e=14, classes=6, settings=True):
-    def mk(g, uni, s, d, u, via, res, cache=False):
+    def mk(g, uni, s, d, u, via, res, cache=False, pad=0, swap=None, take=0):
         nv = g["nv"]
         if uni is not None:
             uni = list(dict.fromkeys(x % nv for x in uni)) or [s % nv]
             start = uni[s % len(uni)]
         else:
             start = s % nv
-        return {"g": g, "uni": uni, "start": start, "d": d, "u": u, "via": via, "res": res, "cache": cache}
+        return {"g": g, "uni": uni, "start": start, "d": d, "u": u, "via": via, "res": res, "cache": cache,
+                "pad": pad if uni is not None else 0, "swap": list(swap) if (swap and uni is not None) else None, "take": take}
 
     return st.builds(
         mk,
@@ -35,6 +36,11 @@ def cases(max_v=8, max_e=14, classes=6, settings=True):
         graphs.filter_specs if settings else st.none(),
         st.one_of(st.none(), st.integers(0, 255)) if settings else st.none(),
         st.booleans(),
+        # universe padded with isolated members (size-dependent code paths), a later membership swap
+        # (same size: one member out, one non-member in), and a split point for interleaved generators
+        st.sampled_from([0] * 50 + [40] * 6 + [1000]),
+        st.one_of(st.none(), st.tuples(st.integers(0, 7), st.integers(0, 7))),
+        st.integers(0, 4),
     )
 
 
@@ -50,7 +56,10 @@ class Setup:
         if case["uni"] is None:
             self.uni, self.mem = None, None
         else:
-            self.uni = Universe(vertices=[self.vs[m] for m in case["uni"]])
+            from edgegraph.structure import Vertex
+
+            self.pad = [Vertex(attributes={"i": 10000 + k}) for k in range(case.get("pad", 0))]
+            self.uni = Universe(vertices=[self.vs[m] for m in case["uni"]] + self.pad)
             self.mem = set(case["uni"])
         self.start = case["start"]
         self.d, self.u = case["d"], case["u"]
@@ -59,6 +68,27 @@ class Setup:
         res = case["res"]
         self.rf_int = None if res is None else (lambda i: (res >> (i % 8)) & 1 == 1)
         self.rf = None if res is None else (lambda v: self.rf_int(self.vi[id(v)]))
+
+    def apply_swap(self):
+        """
+        Second phase: one member leaves the universe and one non-member joins (size unchanged, no link touched).
+        -> True if the world changed and the oracles should be evaluated again.
+        """
+        sw = self.case.get("swap")
+        if not sw or self.uni is None:
+            return False
+        members = [m for m in sorted(self.mem)]
+        outside = [i for i in range(len(self.vs)) if i not in self.mem]
+        if not members or not outside:
+            return False
+        out_v = members[sw[0] % len(members)]
+        in_v = outside[sw[1] % len(outside)]
+        self.uni.remove_vertex(self.vs[out_v])
+        self.uni.add_vertex(self.vs[in_v])
+        self.mem = (self.mem - {out_v}) | {in_v}
+        if self.start == out_v:
+            self.start = in_v
+        return True
 
     def fresh_ff(self, accept_all=False):
         """A new short-lived ff_via callable at every call (same truth table unless accept_all)."""
